@@ -49,6 +49,15 @@ def gen_topk(items):
                         'else{sort_key=self.segment_sort_key(doc,score);};top_n_computer.append_doc(doc,sort_key);')
         if collect_pair not in bodies('compute_sort_key_and_collect'):
             raise Fail(f'{path}: compute_sort_key_and_collect of (Head, Tail) changed shape')
+        conv = bodies('convert_segment_sort_key')
+        want_conv = ['let(head_sort_key,tail_sort_key)=sort_key;(self.0.convert_segment_sort_key(head_sort_key),self.1.convert_segment_sort_key(tail_sort_key),)',
+                     '(self.map)(self.sort_key_computer.convert_segment_sort_key(segment_sort_key),)']
+        if conv[:2] != want_conv:
+            raise Fail(f'{path}: convert_segment_sort_key of (Head, Tail) / of the adapter changed shape (Proofs/LazyConvert.lean::convertPair mirrors them)')
+        flat = re.sub(r'\s+', '', text)
+        if ('map=|(sort_key1,(sort_key2,sort_key3))|(sort_key1,sort_key2,sort_key3);' not in flat
+                or 'map:|(sort_key1,(sort_key2,(sort_key3,sort_key4)))|{(sort_key1,sort_key2,sort_key3,sort_key4)}' not in flat):
+            raise Fail(f'{path}: the 3-/4-tuple adapters no longer re-associate the chain (a, (b, (c, d))) into (a, b, c, d)')
         comps = bodies('comparator')
         for n in (2, 3, 4):
             want = '(' + ','.join(f'self.{i}.comparator()' for i in range(n)) + ',)'
@@ -70,3 +79,82 @@ def gen_topk(items):
             raise Fail(f'{path}: the block-max (fieldnorm_id, term_freq) pair is no longer the max_by of Bm25Weight::tf_factor over the block')
         return D('BLOCKWAND_PAIR_IS_ARGMAX_TF_FACTOR', 1, 'serializer: blockwand_params = max_by tf_factor over the block, written with write_blockwand_max')
     items.append(blockwand_pair)
+    def collector_shape():
+        # the collector skeleton the model `search` / `mergeTopK` / `heapCb` / `heapCbA` mirrors
+        path = 'src/collector/sort_key_top_collector.rs'
+        flat = re.sub(r'\s+', '', strip_comments(src(path)))
+        want = {
+            'for_segment sizes the TopNComputer by doc_range.end (= offset + limit)':
+                'TopNComputer::new_with_comparator(self.doc_range.end,self.sort_key_computer.comparator(),)',
+            'collect_segment collects k = doc_range.end':
+                'letk=self.doc_range.end;letdocs=self.sort_key_computer.collect_segment_top_k(k,weight,reader,segment_ord)?;',
+            'merge_fruits = merge_top_k over all fruits with the collector comparator':
+                'merge_top_k(segment_fruits.into_iter().flatten(),self.doc_range.clone(),self.sort_key_computer.comparator(),)',
+            'merge_top_k sorts all fruits by (comparator desc, address asc)':
+                'all.sort_by(|lhs,rhs|{comparator.compare(&lhs.0,&rhs.0).reverse().then_with(||lhs.1.cmp(&rhs.1))});',
+            'merge_top_k = skip(start).take(end - start)':
+                'all.into_iter().skip(doc_range.start).take(doc_range.end-doc_range.start).collect()',
+        }
+        for what, frag in want.items():
+            if frag not in flat:
+                raise Fail(f'{path}: {what}: shape not found (Model/TopN.lean::search / mergeTopK mirror it)')
+        path2 = 'src/collector/sort_key/sort_by_score.rs'
+        flat2 = re.sub(r'\s+', '', strip_comments(src(path2)))
+        want2 = {
+            'the score path collects into TopNHeap::new(k)': 'letmuttop_n=TopNHeap::new(k);',
+            'deletes-aware callback: a deleted document returns the old threshold':
+                'ifalive_bitset.is_deleted(doc){returnthreshold;}top_n.push(score,doc);threshold=top_n.threshold.unwrap_or(Score::MIN);threshold',
+            'plain callback: push, return the heap threshold':
+                'weight.for_each_pruning(Score::MIN,reader,&mut|doc,score|{top_n.push(score,doc);top_n.threshold.unwrap_or(Score::MIN)})?;',
+            'TopNHeap::push replaces the minimum only for score > threshold': 'ifscore>threshold{',
+        }
+        for what, frag in want2.items():
+            if frag not in flat2:
+                raise Fail(f'{path2}: {what}: shape not found (Proofs/WandHeap.lean::heapCb / heapCbA mirror it)')
+        return D('COLLECTOR_SHAPE', 1, 'per-segment capacity = doc_range.end on both entry points; merge = sort all fruits, skip, take; score path = TopNHeap callback (deletes-aware)')
+    items.append(collector_shape)
+    def comparator_shape():
+        # the comparators on optional keys (Model/LazyKey.lean::natOpt / revOpt / revNoneLower / natNoneHigher / ofOrder mirror them)
+        path = 'src/collector/sort_key/order.rs'
+        flat = re.sub(r'\s+', '', strip_comments(src(path)))
+        want = {
+            'NaturalComparator = partial_cmp(..).unwrap_or(Equal)': 'lhs.partial_cmp(rhs).unwrap_or(Ordering::Equal)',
+            'ReverseComparator = Natural with the arguments swapped': 'NaturalComparator.compare(rhs,lhs)',
+            'ReverseNoneIsLowerComparator on Option':
+                'match(lhs_opt,rhs_opt){(None,None)=>Ordering::Equal,(None,Some(_))=>Ordering::Less,(Some(_),None)=>Ordering::Greater,(Some(lhs),Some(rhs))=>ReverseComparator.compare(lhs,rhs),}',
+            'NaturalNoneIsHigherComparator on Option':
+                'match(lhs_opt,rhs_opt){(None,None)=>Ordering::Equal,(None,Some(_))=>Ordering::Greater,(Some(_),None)=>Ordering::Less,(Some(lhs),Some(rhs))=>NaturalComparator.compare(lhs,rhs),}',
+            'From<Order>: Asc => ReverseNoneLower, Desc => Natural':
+                'matchorder{Order::Asc=>ComparatorEnum::ReverseNoneLower,Order::Desc=>ComparatorEnum::Natural,}',
+            'ComparatorEnum dispatch':
+                'matchself{ComparatorEnum::Natural=>NaturalComparator.compare(lhs,rhs),ComparatorEnum::Reverse=>ReverseComparator.compare(lhs,rhs),ComparatorEnum::ReverseNoneLower=>ReverseNoneIsLowerComparator.compare(lhs,rhs),ComparatorEnum::NaturalNoneHigher=>NaturalNoneIsHigherComparator.compare(lhs,rhs),}',
+            'pair comparator = head.then_with(tail)': 'self.0.compare(&lhs.0,&rhs.0).then_with(||self.1.compare(&lhs.1,&rhs.1))',
+        }
+        for what, frag in want.items():
+            if frag not in flat:
+                raise Fail(f'{path}: {what}: shape not found')
+        return D('COMPARATOR_SHAPE', 1, 'order.rs: Natural / Reverse / ReverseNoneIsLower / NaturalNoneIsHigher on Option, From<Order>, ComparatorEnum dispatch, pair = head.then_with(tail)')
+    items.append(comparator_shape)
+    def topn_computer_shape():
+        # TopNComputer as Model/TopN.lean mirrors it (push, append_doc, truncate_top_n, into_sorted_vec, into_vec, compare_for_top_k)
+        path = 'src/collector/top_score_collector.rs'
+        flat = re.sub(r'\s+', '', strip_comments(src(path)))
+        want = {
+            'compare_for_top_k = comparator reversed, then ascending doc':
+                'c.compare(&lhs.sort_key,&rhs.sort_key).reverse().then_with(||lhs.doc.cmp(&rhs.doc))',
+            'push: strict threshold (ignored unless Greater), then append_doc':
+                'ifletSome(last_median)=&self.threshold{ifself.comparator.compare(&sort_key,last_median)!=Ordering::Greater{return;}}self.append_doc(doc,sort_key);',
+            'append_doc: truncate at capacity, the median becomes the threshold':
+                'ifself.buffer.len()==self.buffer.capacity(){letmedian=self.truncate_top_n();self.threshold=Some(median);}',
+            'truncate_top_n: select_nth_unstable_by(top_n, compare_for_top_k), median key, truncate(top_n)':
+                'let(_,median_el,_)=self.buffer.select_nth_unstable_by(self.top_n,|lhs,rhs|{compare_for_top_k(&self.comparator,lhs,rhs)});letmedian_score=median_el.sort_key.clone();self.buffer.truncate(self.top_n);median_score',
+            'into_sorted_vec: truncate if above top_n, sort_unstable_by(compare_for_top_k)':
+                'ifself.buffer.len()>self.top_n{self.truncate_top_n();}self.buffer.sort_unstable_by(|lhs,rhs|compare_for_top_k(&self.comparator,lhs,rhs));self.buffer',
+            'into_vec: truncate if above top_n':
+                'ifself.buffer.len()>self.top_n{self.truncate_top_n();}self.buffer}',
+        }
+        for what, frag in want.items():
+            if frag not in flat:
+                raise Fail(f'{path}: {what}: shape not found (Model/TopN.lean mirrors it)')
+        return D('TOPN_COMPUTER_SHAPE', 1, 'TopNComputer: compare_for_top_k, push (strict threshold), append_doc, truncate_top_n, into_sorted_vec, into_vec')
+    items.append(topn_computer_shape)
